@@ -65,11 +65,12 @@ theorem request_spec (r : Reader) (h : r.Ok) (hh : r.src.Honest) (n : Nat) :
     ∃ r' bs, r.request n = (some r'.window, r') ∧ r'.Ok ∧ Grew r r' bs ∧
       (n ≤ r.validLen → r' = r) ∧ (n ≤ r'.validLen ∨ r'.complete = true) ∧
       (r' = r ∨ r'.validLen - r'.src.lastGive < n) ∧
-      r'.buf.length ≤ max r.buf.length (3 * r.chunk + n) := by
+      r'.buf.length ≤ max r.buf.length (3 * r.chunk + n) ∧
+      (r'.complete = r.complete ∨ r'.validLen < n) := by
   unfold request
-  rcases requestLoop_spec (r.fuel + 1) r n h with ⟨r', bs, e, ok, g, h1, h2, h3, h4⟩ | ⟨r', bs, e, ok, ⟨x, hx⟩, _⟩
+  rcases requestLoop_spec (r.fuel + 1) r n h with ⟨r', bs, e, ok, g, h1, h2, h3, h4, h5⟩ | ⟨r', bs, e, ok, ⟨x, hx⟩, _⟩
   · rw [e]
-    exact ⟨r', bs, rfl, ok, g, h1, h2 (by simp [fuel]), h3, h4⟩
+    exact ⟨r', bs, rfl, ok, g, h1, h2 (by simp [fuel]), h3, h4, h5⟩
   · exact absurd hx (hh x)
 
 /-- `request_byte_at_offset(k)` with an honest source: the byte at offset `k` of the stream in
@@ -78,14 +79,15 @@ theorem requestByteAt_spec (r : Reader) (h : r.Ok) (hh : r.src.Honest) (k : Nat)
     ∃ r' bs, r.requestByteAt k = (some (r.rest[k]?), r') ∧ r'.Ok ∧ Grew r r' bs ∧
       (k < r.validLen → r' = r) ∧ (k < r'.validLen ∨ (r'.complete = true ∧ r.rest.length ≤ k)) ∧
       (r' = r ∨ r'.validLen - r'.src.lastGive ≤ k) ∧
-      r'.buf.length ≤ max r.buf.length (3 * r.chunk + (k + 1)) := by
+      r'.buf.length ≤ max r.buf.length (3 * r.chunk + (k + 1)) ∧
+      (r'.complete = r.complete ∨ r'.validLen ≤ k) := by
   unfold requestByteAt
-  rcases requestLoop_spec (r.fuel + 1) r (k + 1) h with ⟨r', bs, e, ok, g, h1, h2, h3, h4⟩ | ⟨r', bs, e, ok, ⟨x, hx⟩, _⟩
+  rcases requestLoop_spec (r.fuel + 1) r (k + 1) h with ⟨r', bs, e, ok, g, h1, h2, h3, h4, h5⟩ | ⟨r', bs, e, ok, ⟨x, hx⟩, _⟩
   · rw [e]
     have hw := ok.window_length
     have hrest : r.rest = r'.rest := g.rest.symm
     have hfin := h2 (by simp [fuel])
-    refine ⟨r', bs, ?_, ok, g, fun hk => h1 (by omega), ?_, ?_, h4⟩
+    refine ⟨r', bs, ?_, ok, g, fun hk => h1 (by omega), ?_, ?_, h4, by rcases h5 with h5 | h5; exact Or.inl h5; exact Or.inr (by omega)⟩
     · simp only
       congr 2
       rw [hrest]
